@@ -100,13 +100,28 @@ func genBatch(r *rand.Rand, mode string) (BatchCfg, *BatchScript) {
 				c.Barrier[i]++
 			}
 		}
+	}
+	switch mode {
+	case "continue", "stop", "single", "waves":
+		c.After = r.Intn(3) == 0
+	}
+	switch mode {
 	case "rerun": // the node object was used before with a higher concurrency level
 		c.C = 1 + r.Intn(3)
 		c.WarmC = c.C + 1 + r.Intn(4)
 		c.Items = 2*c.WarmC + r.Intn(6)
 		c.Sched = "random"
 		c.Via = "builder"
+		c.WarmN = 1 + r.Intn(4) // ... and with another retry budget
 		pFail = 0
+	case "rebudget": // the node object was used before with another retry budget
+		c.C = r.Intn(3)
+		c.Items = 2 + r.Intn(6)
+		c.N = 1 + r.Intn(4)
+		c.WarmN = 1 + (c.N+r.Intn(3))%4
+		c.Sched = "random"
+		c.Via = []string{"builder", "node"}[r.Intn(2)]
+		pFail = 0.6
 	case "waves": // items of a wave complete at the same instant, with different outcomes
 		c.C = 2 + r.Intn(7)
 		c.Items = c.C * (2 + r.Intn(4))
@@ -134,6 +149,13 @@ func genBatch(r *rand.Rand, mode string) (BatchCfg, *BatchScript) {
 	case "wait":
 		c.W = 1 + r.Intn(3)
 		c.N = 2 + r.Intn(2)
+	case "backoff": // items that wait between two attempts while their neighbours are busy and others are queued
+		c.C = 1 + r.Intn(3)
+		c.Items = 3*c.C + 2 + r.Intn(3)
+		c.W = 4 + r.Intn(3)
+		c.N = 2
+		c.Sched, c.Via, c.StopMode = "hold", "builder", false
+		pFail = 0.5
 	}
 	if c.Shape == "single" || c.Shape == "singlenilptr" {
 		c.Items = 1
@@ -156,6 +178,8 @@ func genBatch(r *rand.Rand, mode string) (BatchCfg, *BatchScript) {
 				o.Out = "err"
 			} else if c.ExSty == "r" && r.Intn(12) == 0 {
 				o.Out = "eres" // an error Result with a nil error
+			} else if r.Intn(8) == 0 {
+				o.Out = "nil" // success with a nil value
 			}
 			is.Execs = append(is.Execs, o)
 		}
